@@ -227,8 +227,21 @@ def _lower_upper_site(body, where, lvalues, bindings, fail):
     hi = _parse_expr(_subst(m.group(2), lvalues), names, where + ": upper")
     names2 = dict(names)
     names2.update({"lower": "lower", "upper": "upper"})
-    cond = _parse_cond(_subst(m.group(3), lvalues), names2, where + ": condition")
-    return {"lets": [("lower", lo), ("upper", hi)], "cond": cond}
+    ctext = _subst(m.group(3), lvalues)
+    # leading `isnan(<variable>) ||` disjuncts: a NaN is refused before the comparisons (which are all
+    # false for NaN); the decision functions are stated on Q, the guard is recorded and emitted as the
+    # None case of <site>_reject_nan
+    nan_guard = []
+    while True:
+        g = re.match(r"\s*isnan\s*\(\s*([A-Za-z_][A-Za-z_0-9]*)\s*\)\s*\|\|", ctext)
+        if not g:
+            break
+        if g.group(1) not in names:
+            raise TranslateError("%s: isnan() of %r, which is not a variable of the range test" % (where, g.group(1)))
+        nan_guard.append(names[g.group(1)])
+        ctext = ctext[g.end():]
+    cond = _parse_cond(ctext, names2, where + ": condition")
+    return {"lets": [("lower", lo), ("upper", hi)], "cond": cond, "nan_guard": nan_guard}
 
 
 def _frange_part(repo):
@@ -329,6 +342,11 @@ def _apply_part(repo):
     for blk in (m.group(1), m.group(2)):
         if not re.search(r"return\s+-1\s*;", blk) or "_vnacal_error" not in blk:
             raise TranslateError("%s: a test on the request frequencies no longer reports an error and returns -1" % where)
+    # a NaN in the request is refused before the order test (every comparison is false for NaN); the model's
+    # frequencies are rationals, so this exit has no counterpart in ApplyFreqRange.apply_check
+    _need(body, r"for\s*\(\s*int\s+i\s*=\s*0\s*;\s*i\s*<\s*vaa\.vaa_frequencies\s*;\s*\+\+i\s*\)\s*\{\s*if\s*\(\s*isnan\s*\(\s*vaa\.vaa_frequency_vector\[i\]\s*\)\s*\)\s*\{"
+                r"[^{}]*return\s+-1\s*;\s*\}\s*\}\s*for\s*\(\s*int\s+i\s*=\s*0\s*;\s*i\s*<\s*vaa\.vaa_frequencies\s*-\s*1", where,
+          "NaN test on the request frequencies immediately before the order test")
     _need(body, r"range_ok\s*:", where, "label range_ok")
     _need(body, r"for\s*\(\s*int\s+findex\s*=\s*0\s*;\s*findex\s*<\s*vaa\.vaa_frequencies\s*;\s*\+\+findex\s*\)\s*\{\s*"
                 r"double\s+f\s*=\s*vaa\.vaa_frequency_vector\[findex\]\s*;", where,
@@ -410,6 +428,16 @@ def translate(repo):
          (r"\bfmax\s*=\s*vnp->vn_frequency_vector\[vnp->vn_frequencies\s*-\s*1\]\s*;", "fmax = vnp->vn_frequency_vector[vnp->vn_frequencies - 1]")],
         "-1")
 
+    # the range test of set_m_error sits under `if (frequency_vector != NULL && frequencies > 1) { ... if (vn_frequencies > 0) {`:
+    # a single value (frequencies == 1) applies to every frequency and its frequency vector is not looked at
+    g = _need(body, r"if\s*\(\s*frequency_vector\s*!=\s*NULL\s*&&\s*frequencies\s*(>=|>)\s*(\d+)\s*\)\s*\{\s*double\s+fmin\s*,\s*fmax\s*;\s*double\s+lower\s*,\s*upper\s*;",
+              "vnacal_new_set_m_error.c", "'if (frequency_vector != NULL && frequencies > <k>) { double fmin, fmax; double lower, upper;'")
+    out["sites"]["range_m_error"]["applies"] = (g.group(1), int(g.group(2)))
+    _need(body, r"if\s*\(\s*vnp->vn_frequencies\s*>\s*0\s*\)\s*\{\s*fmin\s*=\s*vnp->vn_frequency_vector\[0\]\s*;", "vnacal_new_set_m_error.c",
+          "'if (vnp->vn_frequencies > 0) { fmin = ...' around the range test")
+    _need(body, r"\}\s*else\s+if\s*\(\s*frequencies\s*!=\s*1\s*&&\s*frequencies\s*!=\s*vnp->vn_frequencies\s*\)\s*\{", "vnacal_new_set_m_error.c",
+          "'} else if (frequencies != 1 && frequencies != vnp->vn_frequencies) {' (NULL frequency vector)")
+
     # ---- site 3: vnacal_get_parameter_value
     t = _read(repo, "vnacal_get_parameter_value.c")
     body = _function_body(t, "vnacal_get_parameter_value", "vnacal_get_parameter_value.c")
@@ -447,6 +475,9 @@ def translate(repo):
     for k, s in out["sites"].items():
         if len(s["cond"]) != 2:
             raise TranslateError("%s: expected two comparisons, found %d" % (k, len(s["cond"])))
+    for k in ("range_new_parameter", "range_m_error"):
+        if out["sites"][k].get("nan_guard"):
+            raise TranslateError("%s: unexpected isnan() disjunct in the range test" % k)
     out["frange"] = _frange_part(repo)
     out["apply_loop_idiom"] = _apply_part(repo)
     _check_x_form(out["sites"]["range_new_parameter"], "vnacal_new_parameter.c:check_single_frequency_range")
@@ -611,6 +642,23 @@ def emit(tr):
             L.append("  let %s := %s in" % (v, _e(e)))
         L.append("  orb (%s) (%s)." % (_c(s["cond"][0]), _c(s["cond"][1])))
         L.append("")
+    # set_m_error: the range test applies to calls with more than <k> points only
+    op, k = tr["sites"]["range_m_error"].get("applies", (">", 1))
+    L.append("Definition range_m_error_applies (frequencies : Z) : bool := %s." % ("Z.ltb %d frequencies" % k if op == ">" else "Z.leb %d frequencies" % k))
+    L.append("Definition range_m_error_reject_n (frequencies : Z) (need_lo need_hi have_lo have_hi : Q) : bool :=")
+    L.append("  if range_m_error_applies frequencies then range_m_error_reject need_lo need_hi have_lo have_hi else false.")
+    L.append("")
+    # vnacal_get_parameter_value: None = a NaN frequency.  With the isnan() disjunct it is refused before the
+    # comparisons; without it every comparison is false for NaN and the value is accepted.
+    ng = tr["sites"]["range_get_value"].get("nan_guard", [])
+    if [v for v in ng if v != "need_lo"]:
+        raise TranslateError("vnacal_get_parameter_value.c: isnan() guard on %s (only the queried frequency is expected)" % ng)
+    L.append("Definition range_get_value_reject_nan (frequency : option Q) (have_lo have_hi : Q) : bool :=")
+    L.append("  match frequency with")
+    L.append("  | None => %s" % ("true" if "need_lo" in ng else "false"))
+    L.append("  | Some f => range_get_value_reject f f have_lo have_hi")
+    L.append("  end.")
+    L.append("")
     L += emit_frange(tr)
     return "\n".join(L)
 
